@@ -1,6 +1,6 @@
 // go2v extension [ext:T03] (added for the RoaringCode area, C03; usable by any area).  Everything here is reached through
 // one-line hooks in trans.go / trans_expr.go / trans_stmt.go that are marked `[ext:T03]`; an area that sets none of the new
-// TransSpec fields (Nested, Ifaces) and uses none of the new constructs translates exactly as before.
+// TransSpec fields (Ext03, Ifaces, Heads) translates exactly as before.
 //
 //	TransSpec.Ext03    a field of a translated struct may itself be a translated struct (listed EARLIER in Structs): a named
 //	                   field, an embedded struct (field name = type name, promoted fields and methods resolve through it) or a
@@ -26,6 +26,9 @@
 //	TransSpec.Heads    of a function that cannot be translated as a whole: its leading simple declarations (`high := uint16(num >> 16)`:
 //	                   operators, len/cap/min/max, integer conversions) as g_<Func>_head <free variables> : M <the declared
 //	                   variables that are used afterwards, in declaration order> (the fragment machinery of [ext:T20]).
+//	copy, calls        under Ext03 copy(s[a:], s[b:]) on the same slice is allowed (copy is a memmove; the list model takes the source
+//	                   VALUE first), and a slice argument of a call whose callee only reads it (len(p), p[i], range p) does not mark
+//	                   the argument's storage as shared.
 //	slice out-params   a slice parameter that the body writes in place (p[i] = v, copy(p, ..), copy(p[a:b], ..)) and never
 //	                   reassigns as a whole is returned (after the receiver and the package-level state, before the results), so
 //	                   that the caller's view of the shared array is explicit.  Calls of such functions are refused for now.
